@@ -8,6 +8,7 @@ Writer handles, calls that fail midway).  For every checked call the *dependency
 pristine forked interpreter and the two observations must be equal; independently every
 schema and datum argument is snapshotted before and after each call.
 """
+import collections
 import copy
 import datetime
 import decimal
@@ -97,6 +98,9 @@ def families(ch):
             {"name": "inner", "type": {"type": "record", "name": "Inner", "fields": [{"name": "xs", "type": {"type": "array", "items": "int"}}]},
              "default": {"xs": [1, 2]}},
             {"name": "u", "type": [{"type": "array", "items": "string"}, "null"], "default": ["d"]}]},
+        "NumU_1": ["null", "int", "long", "double"],
+        "NumU_2": ["null", "int", "string"],
+        "NumU_3": {"type": "record", "name": "NU", "fields": [{"name": "n", "type": ["null", "int", "long", "double"]}]},
         "Prim": "long",
         "Union": ["null", "string", {"type": "record", "name": "R", "fields": [{"name": "u", "type": "boolean"}]}],
     }
@@ -105,9 +109,9 @@ def families(ch):
 
 DATA = {
     "R_a": [{"a": 1}, {"a": -5}],
-    "R_b": [{"b": "x"}, {"b": "é", "l": []}],
+    "R_b": [{"b": "x"}, {"b": "é", "l": []}, collections.defaultdict(list, {"b": "dd"}), collections.OrderedDict([("b", "od")])],
     "R_enum": ["X", "Y"],
-    "R_ns": [{"a": 1 << 40}, {"a": 0, "m": {}}],
+    "R_ns": [{"a": 1 << 40}, {"a": 0, "m": {}}, collections.defaultdict(dict, {"a": 3})],
     "E_1": ["A", "B"],
     "E_2": ["C", "D"],
     "F_4": [b"abcd"],
@@ -120,6 +124,9 @@ DATA = {
     "UAB_1": [{"u": {"y": 7}}, {"u": {"x": 1}}, {"u": {}}, {"u": {"y": 7, "-type": "B"}}, {"u": ("A", {"x": 3})}],
     "UAB_2": [{"u": {"y": 7}}, {"u": {"x": 1}}, {"u": {}}, {"u": {"y": 7, "-type": "A"}}, {"u": ("B", {"x": 3})}],
     "R_nested": [{}, {"grid": [[9]], "u": None}],
+    "NumU_1": [7, 1 << 40, 1.5, None, -(1 << 31) - 1],
+    "NumU_2": [1, 1 << 40, "s"],
+    "NumU_3": [{"n": 7}, {"n": 1 << 40}, {"n": 2.5}],
     "Prim": [5, -1],
     "Union": [None, "s", {"u": True}, {"u": False, "-type": "R"}, ("R", {"u": True})],
     # reference-only schemas: data for the contexts in which they can be parsed
@@ -187,7 +194,7 @@ class History:
         # swarm: each history concentrates on one group of schemas that clash on a type name
         groups = [["R_a", "R_b", "R_enum", "R_ns", "Outer_R", "Uses_R", "Arr_R", "Rec_dec", "Union", "R_nested"],
                   ["E_1", "E_2", "Outer_E", "Uses_E", "Bad_sym"], ["F_4", "F_2", "Outer_E", "Bad_dup"],
-                  ["UAB_1", "UAB_2"], ["Dec_30", "Dec_3", "Rec_dec"], list(self.keys)]
+                  ["UAB_1", "UAB_2"], ["Dec_30", "Dec_3", "Rec_dec"], ["NumU_1", "NumU_2", "NumU_3"], list(self.keys)]
         self.focus = ch.pick(groups)
         self.focus_pct = ch.pick([0, 60, 90])
         # swarm: every history has its own operation mix (some kinds switched off, some tripled)
